@@ -59,6 +59,11 @@ Theorem reload_source_shape :
   (* what validation accepts is what start-up can run: listeners are keyed by their type string as
      written (no normalisation start-up would not share), and the four refusals are in place *)
   Gen.Consts.validate_listener_key = "string(lnConfig.Type) + ""/"" + lnConfig.Address"%string /\
-  List.length Gen.Consts.validate_errors = 4.
+  List.length Gen.Consts.validate_errors = 4 /\
+  (* nothing of a configuration serves before all of it has been set up: no accept or packet loop
+     is started from inside the loops that set ports, services and listeners up; the serve
+     functions collected there are started by the one loop that follows (repair b38c1dd) *)
+  Gen.Consts.run_config_go_in_setup_loops = [] /\
+  Gen.Consts.run_config_go_in_final_loop = ["serve"]%string.
 Proof. repeat split; reflexivity. Qed.
 Print Assumptions reload_source_shape.
